@@ -32,7 +32,7 @@ type c09Script struct {
 	Mode       string     `json:"mode"` // accept | refuse | backlog (listener never accepts, queue full: SYNs are dropped)
 	ReadFirst  bool       `json:"read_greeting_before_replying"`
 	Chunks     []c09Chunk `json:"reply_chunks"`
-	End        string     `json:"then"` // stall | close | rst | flood
+	End        string     `json:"then"` // stall | close | rst | flood | trickle
 	CloseEarly bool       `json:"close_right_after_accept"`
 }
 
@@ -153,6 +153,22 @@ func (c *c09Conn) serve(cn *net.TCPConn) {
 				cn.Close()
 				return
 			default:
+			}
+		}
+		cn.Close()
+	case "trickle":
+		// extra bytes one at a time, every few milliseconds, for much longer than any deadline of the probe
+		gap := time.Duration(5+len(sc.Chunks)*7%36) * time.Millisecond
+		for k := 0; k < 4000; k++ {
+			cn.SetWriteDeadline(time.Now().Add(200 * time.Millisecond))
+			if _, err := cn.Write([]byte{0x41}); err != nil {
+				break
+			}
+			select {
+			case <-c.release:
+				cn.Close()
+				return
+			case <-time.After(gap):
 			}
 		}
 		cn.Close()
@@ -364,14 +380,14 @@ func c09GenReply(t *rapid.T) []byte {
 func TestC09Scripts(t *testing.T) {
 	kit.Run(t, kit.Spec[c09Case]{
 		Prop: "C09",
-		Rule: "the real socks5.Scanner against a scripted loopback server chosen per probed address in 127.0.0.0/8: refuse; listener whose accept queue is full (SYNs dropped: dial timeout); accept and close/reset at once; reply bytes (05 00, 05 xx, xx 00, one byte, none, 05 00 + extra, garbage) sent before or after reading the greeting, whole or split into segments with pauses <= T/4, then stall / close / reset / flood; connect and data timeouts 60..300 ms; optional cancellation at a drawn instant (with 20 s timeouts). Oracle: a record only if the first two bytes sent are 05 00, carrying the probed ip/port; a record is demanded when 05 00 was sent after reading the greeting (delivery certain); no connection => error; greeting seen by the server = 05 01 00; elapsed <= connect + 3 x data timeout + 3 s; after a cancel the probe returns within 3 s. non-trivial: anything but the plain full reply; distinct by case",
+		Rule: "the real socks5.Scanner against a scripted loopback server chosen per probed address in 127.0.0.0/8: refuse; listener whose accept queue is full (SYNs dropped: dial timeout); accept and close/reset at once; reply bytes (05 00, 05 xx, xx 00, one byte, none, 05 00 + extra, garbage) sent before or after reading the greeting, whole or split into segments with pauses <= T/4, then stall / close / reset / flood / a trickle of single bytes every 5..40 ms for up to 160 s; connect and data timeouts 60..300 ms; optional cancellation at a drawn instant (with 20 s timeouts). Oracle: a record only if the first two bytes sent are 05 00, carrying the probed ip/port; a record is demanded when 05 00 was sent after reading the greeting (delivery certain); no connection => error; greeting seen by the server = 05 01 00; elapsed <= connect + 3 x data timeout + 3 s; after a cancel the probe returns within 3 s. non-trivial: anything but the plain full reply; distinct by case",
 		Gen: func(t *rapid.T) c09Case {
 			c := c09Case{IP: c09GenIP(t), DialMs: rapid.SampledFrom([]int{60, 150, 300}).Draw(t, "dial"), DataMs: rapid.SampledFrom([]int{60, 150, 300}).Draw(t, "data")}
 			sc := &c.Script
 			sc.Mode = rapid.SampledFrom([]string{"accept", "accept", "accept", "accept", "accept", "refuse", "backlog"}).Draw(t, "mode")
 			if sc.Mode == "accept" {
 				sc.ReadFirst = rapid.IntRange(0, 3).Draw(t, "readfirst") != 0
-				sc.End = rapid.SampledFrom([]string{"stall", "close", "close", "rst", "flood"}).Draw(t, "end")
+				sc.End = rapid.SampledFrom([]string{"stall", "close", "close", "rst", "flood", "stall", "close", "close", "rst", "flood", "trickle"}).Draw(t, "end")
 				sc.CloseEarly = rapid.IntRange(0, 7).Draw(t, "early") == 0
 				if !sc.CloseEarly {
 					reply := c09GenReply(t)
